@@ -78,6 +78,46 @@ int main(int argc, char** argv)
                         if (!ev_win && strong_v < 0) rec.violation("evaluator:negative-for-pawn-side", exj("endgame::score", strong_v));
                         if (n % 50021 == 1) rec.sample(vh::J().str("fen", cur).str("truth", truth ? "win" : "draw").num("engine_strong_side_value", strong_v).done());
                         rec.nontrivial((uint64_t(pawn_color) << 40) | T.idx(stm, wk, wp, bk));
+                        // the same position REACHED BY A CAPTURE from a four-man ending (what a game produces; piece lists,
+                        // counts and keys then come from do_move, not from the FEN parser)
+                        if ((n % 23) == 0)
+                        {
+                            int strong_c = pawn_color == 0 ? orc::WHITE : orc::BLACK;
+                            int mover = 1 - b.stm;  // the side that just captured
+                            int msq = b.king_sq(mover);
+                            for (int df = -1; df <= 1; ++df)
+                                for (int dr = -1; dr <= 1; ++dr)
+                                {
+                                    int f0 = orc::file_of(msq) + df, r0 = orc::rank_of(msq) + dr;
+                                    if ((!df && !dr) || !orc::on_board(f0, r0)) continue;
+                                    int from = orc::sq_of(f0, r0);
+                                    if (b.sq[from] != orc::EMPTY) continue;
+                                    orc::Board p0 = b;
+                                    p0.sq[from] = p0.sq[msq];
+                                    // victim: a second pawn of the strong side if the weak king captured, a knight of the weak side otherwise
+                                    int victim = mover == strong_c ? orc::make_pc(1 - strong_c, orc::KNIGHT) : orc::make_pc(strong_c, orc::PAWN);
+                                    if (orc::kind_of(victim) == orc::PAWN && (orc::rank_of(msq) == 0 || orc::rank_of(msq) == 7)) continue;
+                                    p0.sq[msq] = victim;
+                                    p0.stm = mover;
+                                    p0.halfmove = 3;
+                                    if (!p0.retro_legal()) continue;
+                                    orc::Move cap{from, msq, 0};
+                                    if (!p0.is_legal(cap)) continue;
+                                    std::string f0s = p0.fen();
+                                    vh::set_case(f0s.c_str(), "kpk-after-capture");
+                                    Position Q(f0s);
+                                    Q.do_move(glue::to_engine(cap, p0));
+                                    Value qv = scorer.score(Q);
+                                    Value q_strong = Q.color() == strong ? qv : -qv;
+                                    bool q_win = q_strong >= VALUE_KNOWN_WIN;
+                                    rec.evaluations++;
+                                    rec.count(mover == strong_c ? "kpk-reached-by-capture:strong-king-takes-knight" : "kpk-reached-by-capture:weak-king-takes-pawn");
+                                    if (q_win != truth)
+                                        rec.violation(std::string("after-capture:") + (truth ? "engine-draw-truth-win" : "engine-win-truth-draw"),
+                                                      vh::J().str("fen_before", f0s).str("capture", cap.uci()).str("kpk_fen", cur).num("engine_strong_side_value", q_strong).str("truth", truth ? "win" : "draw").done());
+                                    df = dr = 2;  // one predecessor per position is enough
+                                }
+                        }
                     }
                 }
     rec.count("kpk-positions", n);
